@@ -42,6 +42,8 @@ def check_scan(utils, hay, needle, buf, start, limit, use_tell=False):
             fh.seek(start)
             got = lib(lambda: list(utils.iter_find_needle(fh, needle, None, limit or 0)), what="iter_find_needle")
         else:
+            # an explicit start offset (0 included) must win over wherever the handle currently is
+            fh.seek((len(hay) * 2) // 3)
             got = lib(lambda: list(utils.iter_find_needle(fh, needle, start, limit or 0)), what="iter_find_needle")
     true = naive_find(hay, needle, start)
     hx = hay.hex() if len(hay) <= 64 else hay[:64].hex() + f"...({len(hay)} bytes)"
@@ -212,10 +214,14 @@ def ak_execute(case, stats):
         eff_start = fh.tell()
     else:
         eff_start = start
+        fh.seek(min(case["tellpos"] * 7, len(data)))  # a pre-positioned handle: an explicit start (0 included) must win
     kwargs = {}
     if case["maxrange"] is not None:
         kwargs["maxrange"] = case["maxrange"]
-    got = lib(lambda: list(artifact.iter_artifactkit_payloads(fh, start, **kwargs)), what="iter_artifactkit_payloads")
+    if start == 0 and case["tellpos"] % 2:
+        got = lib(lambda: list(artifact.iter_artifactkit_payloads(fh, **kwargs)), what="iter_artifactkit_payloads")  # documented default
+    else:
+        got = lib(lambda: list(artifact.iter_artifactkit_payloads(fh, start, **kwargs)), what="iter_artifactkit_payloads")
     want = ref_artifact_scan(data, eff_start, case["maxrange"])
     ctx = lambda: f"data={data.hex()} start={start} maxrange={case['maxrange']} got={[g.offset for g in got]} want={want}"
     check([g.offset for g in got] == want, "artifact:offsets", ctx)
